@@ -65,6 +65,16 @@ CLAIMS["C05"] = dict(
    text="Decides the structural clauses for every start version and flag combination at once: the default precedence constant, the 11-row level dispatch with same-name override/bump fields, agreement of the six numeric field processors (override sets, bump adds checked to old.unwrap_or(0) and then resets from its own level, writes only its own field), the reset table (strict >, numbers to 0, pre/post/dev to absent, no schema writes), index dispatch == name dispatch, rejection of all invalid targets, sorted specs, the phase order of to_zerv, and absence of unchecked bump arithmetic. The composed algebraic law on concrete values is not decided.",
    note="Trusted: rustc MIR, zfacts, rules/c05.py + mir.SymPath.",
    ref="4/C05")
+CLAIMS["C06"] = dict(
+   technique="table and wiring extraction from MIR (section -> processor, slot tables, enum dispatch), field-access sets for the tier inputs, truth-table comparison of the smart-preset decision trees (all 16 assignments)",
+   text="Decides the structural placement clauses for every schema and assignment: sections reach their processors in order; SemVer slots 0/1/2 = major/minor/patch; PEP 440 dispatch of epoch/pre/post/dev to their slot processors; writer labels = reader keys; unset variables get no default; the smart presets read only dirty/distance/pre_release/post and their standard and calver decision trees equal the documented tier law on all 16 atom assignments; all 22 presets are handled; PEP 440 conversion ends in normalize(). The full placement function as a value equation is not decided.",
+   note="Trusted: rustc MIR, zfacts, rules/c06.py, tables.py.",
+   ref="4/C06")
+CLAIMS["C07"] = dict(
+   technique="label-table agreement, integer-width rules on every parse of the rendering paths, error-discipline rules on numeric parses, field-wiring extraction (origin tracing through closures) for both to_zerv conversions",
+   text="Decides structural necessary conditions of faithful conversion: label writer/reader tables invert each other; no narrowing parse on the SemVer path; every u64->u32 parse on the infallible PEP 440 path is reported (5 recorded findings: values above u32::MAX are silently dropped/replaced/moved); no constant fallback for failed numeric parses; PEP 440 -> Zerv and SemVer -> Zerv wire each field to the variable of the same meaning; render and tag parsing share the From impls. Round trips and fixed points are value laws and are not decided.",
+   note="Trusted: rustc MIR, zfacts, rules/c07.py. Five genuine defects of the no-silent-change clause are listed in known_findings.json (not repairable by a small patch: needs a fallible conversion API).",
+   ref="4/C07")
 REASONS = {}
 
 def main():
